@@ -121,6 +121,22 @@ ReplayTables == {[i \in 1..4 |-> IF p[i] \in ClassKeys THEN ClassRow(p[i]) ELSE 
                    r2 \in {[key |-> "M#v2", kind |-> "var", types |-> "M#C2", attrs |-> <<[ty |-> "M#C1", kids |-> <<>>]>>, via |-> "M#C2"]}}
 EmitTables == \A tab \in ReplayTables : PrintT("TABLE " \o ToJson([rows |-> tab, order |-> OrderKeys(tab)]))
 
+\* ---- what a module is made of.  A class, a function and a type variable are exported as rows of class Symbol, a
+\* variable and an imported name as rows of class Reflection; a module may consist of any non-empty choice of them (a
+\* module of constants has no Symbol row at all, a re-exporting module only imports).  Import is one step per row; the
+\* module counts as completed as soon as one of its rows has been imported, whatever the class of that row.
+DeclKinds == {"class", "function", "typevar", "variable", "import"}
+RowClass(k) == IF k \in {"class", "function", "typevar"} THEN "Symbol" ELSE "Reflection"
+Compositions == (SUBSET DeclKinds) \ {{}}
+RECURSIVE ImportRows(_, _)
+\* state of the target table after importing rows: [keys, completed]
+ImportRows(rows, st) == IF rows = <<>> THEN st ELSE ImportRows(Tail(rows), [keys |-> st.keys \cup {Head(rows).key}, completed |-> TRUE])
+RowsOf(c) == LET ks == CHOOSE q \in [1..Cardinality(c) -> c] : \A i, j \in 1..Cardinality(c) : i # j => q[i] # q[j] IN
+             [i \in 1..Cardinality(c) |-> [key |-> "M#" \o ks[i], class |-> RowClass(ks[i])]]
+CompletedWhateverTheRows == \A c \in Compositions : LET st == ImportRows(RowsOf(c), [keys |-> {}, completed |-> FALSE]) IN
+                               st.completed /\ st.keys = {"M#" \o k : k \in c}
+EmitCompositions == \A c \in Compositions : PrintT("COMPOSITION " \o ToJson([kinds |-> c, classes |-> {RowClass(k) : k \in c}]))
+
 RECURSIVE NodesOf(_), NodesOfForest(_)
 NodesOfForest(f) == IF f = <<>> THEN 0 ELSE NodesOf(Head(f)) + NodesOfForest(Tail(f))
 NodesOf(t) == 1 + NodesOfForest(t.kids)
